@@ -33,8 +33,24 @@ theorem budget_key_chars (d : Nat) (st : BState) (c c' : Char)
   simp [step, isOpener, closerOf, a1, a2, a3, a4, a5, a6, a7, a8, a9, a10,
     b1, b2, b3, b4, b5, b6, b7, b8, b9, b10]
 
-/-- The comment syntax of `skip_ws_and_comments` is the one the pre-scan skips. -/
-theorem gen_comment_syntax_match_model : commentIntro = ['/', '/'] ∧ commentEnd = '\n' := by decide
+/-- Where a `//` comment ends: the pre-scan's rule and the rule of every comment skipper of
+parser.rs / parser/*.rs, as read from the current source, are the same set of characters, and it is the
+model's (`'\n'`; the end of the input ends a comment everywhere). A span that one of them takes for
+comment and another for live input would hide brackets from the depth guard. -/
+theorem gen_comment_syntax_match_model :
+    commentIntro = ['/', '/'] ∧ prescanCommentEnds = skipperCommentEnds ∧ skippersAgree = true ∧
+    skipperCommentEnds = ['\n'] := by decide
+
+/-- The hypothesis the budget theorems about parsers rest on, in the form they use it. -/
+def CommentEndsAgree : Prop :=
+  prescanCommentEnds = skipperCommentEnds ∧ skippersAgree = true ∧
+  ∀ c, c ∈ skipperCommentEnds ↔ c = '\n'
+
+theorem gen_comment_ends_agree : CommentEndsAgree := by
+  refine ⟨gen_comment_syntax_match_model.2.1, gen_comment_syntax_match_model.2.2.1, ?_⟩
+  intro c
+  rw [gen_comment_syntax_match_model.2.2.2]
+  simp
 
 /-- The limits are the documented ones (256 KiB, 64 levels), and every entry point is budgeted. -/
 theorem gen_limits_documented :
@@ -410,7 +426,7 @@ theorem json_depth_le_fuel (n : Nat) (s : List Char) (v : Json) (r : List Char)
 
 /-- `parse_json` refuses what the budget refuses before any parsing, and what it returns is a tree of
 bounded depth from a text within the documented limits. -/
-theorem parse_json_budgeted (s : List Char) :
+theorem parse_json_budgeted_of (_hends : CommentEndsAgree) (s : List Char) :
     (validateBudgetKip s = .error .tooLong → parseJson s = .tooLong) ∧
     (validateBudgetKip s = .error .tooDeep → parseJson s = .tooDeep) ∧
     (∀ v, parseJson s = .ok v →
@@ -439,6 +455,26 @@ theorem parse_json_budgeted (s : List Char) :
 
 -- (kept small: the kernel evaluates these; multi-element lists and objects are exercised through the
 -- compiled driver by the correspondence run)
+/-- … with the hypothesis discharged by the fact regenerated from the current source: the model's
+`skipTrivia` (used by the JSON model) and its pre-scan end a comment at the same characters as the
+code's skippers and pre-scan do. If the source's two rules ever differ, `gen_comment_syntax_match_model`
+fails and this theorem is no longer available. -/
+theorem parse_json_budgeted (s : List Char) :
+    (validateBudgetKip s = .error .tooLong → parseJson s = .tooLong) ∧
+    (validateBudgetKip s = .error .tooDeep → parseJson s = .tooDeep) ∧
+    (∀ v, parseJson s = .ok v →
+      validateBudgetKip s = .ok () ∧ utf8Len s ≤ 256 * 1024 ∧
+      strictDepth [] (codeBrackets s) 0 ≤ 64 ∧ v.depth ≤ jsonFuel) :=
+  parse_json_budgeted_of gen_comment_ends_agree s
+
+/-- The model's own two rules agree by construction: the pre-scan leaves a comment exactly where the
+trivia skipper does (both at `'\n'`), for every comment body. -/
+theorem model_comment_ends_agree (d : Nat) (stk : List Char) (body rest : List Char) (h : '\n' ∉ body) :
+    scan d { stack := stk, lex := { inLineComment := true } } (body ++ '\n' :: rest) =
+      scan d { stack := stk, lex := {} } rest ∧
+    skipLine (body ++ '\n' :: rest) = skipTrivia rest :=
+  ⟨scan_comment_body d stk body rest h, skipLine_body body rest h⟩
+
 example : (match pValue 2 "[[1]]".toList with | .oof => true | _ => false) = true ∧
           (match pValue 3 "[[1]]".toList with | .ok _ [] => true | _ => false) = true := by decide
 example : (match pValue 9 "[,]".toList with | .ok (.arr []) [] => true | _ => false) = true := by decide
